@@ -51,6 +51,7 @@ type Input struct {
 	Buf    int   `json:"buf,omitempty"` // channel capacity (chans.*)
 	ErrAt  int   `json:"errat"`         // stream.Merge: -1 none, else fails with E once this many items are out
 	Blocks bool  `json:"blocks,omitempty"` // stream.Merge: after its items the input blocks until its ctx ends
+	ErrKind int  `json:"errkind,omitempty"` // 0 = plain sentinel, 1 = an error wrapping context.Canceled, 2 = wrapping context.DeadlineExceeded
 }
 
 type Plan struct {
@@ -81,6 +82,7 @@ func genInput(t *rapid.T, streamKind bool) Input {
 		switch rapid.IntRange(0, 7).Draw(t, "ending") {
 		case 0:
 			in.ErrAt = rapid.IntRange(0, n).Draw(t, "errat")
+			in.ErrKind = rapid.IntRange(0, 2).Draw(t, "errkind")
 		case 1:
 			in.Blocks = true
 		}
@@ -314,6 +316,12 @@ func runStreamMerge(p Plan) (vk.Outcome, error) {
 			r := sk.NewRecStream(fmt.Sprintf("in%d", i), items)
 			r.Gaps = gaps
 			E[i] = sk.NewSentinel(fmt.Sprintf("E%d", i))
+			switch in.ErrKind { // an input may fail, for reasons of its own, with an error that wraps a context error
+			case 1:
+				E[i] = fmt.Errorf("input %d: upstream call failed: %w", i, context.Canceled)
+			case 2:
+				E[i] = fmt.Errorf("input %d: upstream call failed: %w", i, context.DeadlineExceeded)
+			}
 			if in.ErrAt >= 0 {
 				r.FinalAt, r.Final = in.ErrAt, E[i]
 				anyErr = true
@@ -430,4 +438,100 @@ func TestReplicate(t *testing.T) {
 func TestStreamMerge(t *testing.T) {
 	theT = t
 	vk.Run(t, suite, "stream-merge", 1200, genPlan("stream-merge"), reps(runStreamMerge))
+}
+
+// ---------------------------------------------------------------- chans.Merge over an interface element type
+
+// runChansMergeIface: the same producers, but the channels carry error values, some of them nil
+// (a nil interface is a perfectly good channel value). Every arity must move them all.
+func runChansMergeIface(p Plan) (vk.Outcome, error) {
+	var out vk.Outcome
+	nils := 0
+	err := bubble(func() error {
+		ins := make([]chan error, len(p.Inputs))
+		ro := make([]<-chan error, len(p.Inputs))
+		total, wantNil := 0, 0
+		sent := map[error][2]int{}
+		var prod sync.WaitGroup
+		for i, in := range p.Inputs {
+			ins[i] = make(chan error, in.Buf)
+			ro[i] = ins[i]
+			total += len(in.Gaps)
+			vals := make([]error, len(in.Gaps))
+			for k := range vals {
+				if (k+i)%2 == 0 {
+					wantNil++
+				} else {
+					vals[k] = sk.NewSentinel(fmt.Sprintf("v%d-%d", i, k))
+					sent[vals[k]] = [2]int{i, k}
+				}
+			}
+			prod.Add(1)
+			go func(i int, in Input, vals []error) {
+				defer prod.Done()
+				for k, g := range in.Gaps {
+					time.Sleep(ms(g))
+					ins[i] <- vals[k]
+				}
+				close(ins[i])
+			}(i, in, vals)
+		}
+		outc := make(chan error, p.OutBuf)
+		var returned atomic.Bool
+		panicked := make(chan any, 1)
+		go func() {
+			defer func() {
+				if r := recover(); r != nil {
+					panicked <- r
+				}
+			}()
+			chans.Merge(outc, ro...)
+			returned.Store(true)
+		}()
+		gotNil := 0
+		last := map[int]int{}
+		for got := 0; got < total; got++ {
+			time.Sleep(ms(p.Pace[got%len(p.Pace)]))
+			select {
+			case v := <-outc:
+				if v == nil {
+					gotNil++
+					continue
+				}
+				ik, ok := sent[v]
+				if !ok {
+					return vk.Violf("invented-value", "received %v, which no input sent", v)
+				}
+				if prev, seen := last[ik[0]]; seen && ik[1] <= prev {
+					return vk.Violf("order", "input %d: value #%d received after #%d", ik[0], ik[1], prev)
+				}
+				last[ik[0]] = ik[1]
+			case r := <-panicked:
+				return vk.Violf("merge-panic", "chans.Merge over chan error with %d inputs panicked after %d of %d values (some values are nil errors): %v", len(p.Inputs), got, total, r)
+			}
+		}
+		prod.Wait()
+		synctest.Wait()
+		if gotNil != wantNil {
+			return vk.Violf("lost-value", "%d nil values sent, %d received", wantNil, gotNil)
+		}
+		select {
+		case r := <-panicked:
+			return vk.Violf("merge-panic", "chans.Merge panicked: %v", r)
+		default:
+		}
+		if !returned.Load() {
+			return vk.Violf("not-finished", "chans.Merge (interface values) has not returned at quiescence")
+		}
+		nils = wantNil
+		return nil
+	})
+	out.Label(fmt.Sprintf("arity=%d", len(p.Inputs)))
+	out.NonTrivial = nils > 0 && len(p.Inputs) >= 2
+	return out, err
+}
+
+func TestChansMergeInterfaceValues(t *testing.T) {
+	theT = t
+	vk.Run(t, suite, "chans-merge-iface", 600, genPlan("chans-merge"), reps(runChansMergeIface))
 }
